@@ -256,6 +256,8 @@ Record entry := { e_two_d : bool; e_module : string; e_method : string; e_param 
                   e_chain : list item }.
 
 (* per-point arrays (weights, alpha): events of the argument inside the function that validates it *)
-Inductive aevent := AValidate | AUse.
+(* APad: the array is the input of np.pad(..., 'constant') stored back under the same key (extension by a
+   constant number of points, no broadcasting) *)
+Inductive aevent := AValidate | APad | AUse.
 Record aentry := { a_two_d : bool; a_module : string; a_fn : string; a_arg : string;
                    a_events : list aevent }.
